@@ -643,6 +643,9 @@ def gen_kernel_module(kernel):
             # these harnesses are generated but optional (thorough tier, resource limits only degrade coverage)
             if kernel in ('filtermap_fil_col', 'flatmap_fil_col') or (kernel == 'filtermap_fil_col_x' and c != 1):
                 t2 = 'thorough'
+            # flat_map reduce over buffered chunks (chunk.flat_map(..).filter(..).reduce(..)): > 12 min per harness
+            if kernel in ('flatmap_fil_red', 'flatmap_fil_find', 'flatmap_fil_cnt') and c != 1:
+                t2 = 'thorough'
             HARNESSES[name] = dict(kernel=kernel, family='task_' + fam, props=FAM_PROPS[fam], tier=t2,
                                    bounded=True, path='core::%s::vk::%s' % (kernel, name),
                                    shape=dict(n=n, chunk=c, blocks_of_this_worker=list(mine), op=op),
@@ -980,7 +983,9 @@ EAGER_SITES = {('fil', 'flat_map'), ('map_fil', 'flat_map'), ('fmap', 'flat_map'
 
 
 # eager sites whose materialisation (flat_map kernels under symbolic Params) exceeds CBMC's capacity: not scheduled
-LAZY_INTRACTABLE = {('flat_fil', 'map'), ('flat_fil', 'flat_map'), ('flat_fil', 'filter_map'), ('fmap_fil', 'flat_map')}
+LAZY_INTRACTABLE = set()
+# ... unless the source is empty: these four eager sites are run over an empty source (params and "pulled from the source" are still observed)
+LAZY_EMPTY_SOURCE = {('flat_fil', 'map'), ('flat_fil', 'flat_map'), ('flat_fil', 'filter_map'), ('fmap_fil', 'flat_map'), ('flat', 'filter_map')}
 
 
 def gen_lazy():
@@ -997,7 +1002,10 @@ use crate::{ChunkSize, NumThreads, Par, Params};
             b = []
             b.append('#[kani::proof]\n#[kani::unwind(%d)]\n%sfn %s() {' % (10 if eager else 4, STUBS_ALL.replace('    #[', '#['), name))
             b.append('    let log = Log::new();')
-            if eager:
+            if eager and (chain, meth) in LAZY_EMPTY_SOURCE:
+                b.append('    // eager materialisation over an EMPTY source: the kernels run (and pull once), no data flows')
+                b.append('    let (it, data) = multi_worker_iter(&log, 0, 1, [0, 0, 0, 0], 1);')
+            elif eager:
                 b.append('    let (it, data) = multi_worker_iter(&log, 1, 1, [0, 0, 0, 0], 1);')
             else:
                 b.append('    let (it, data) = multi_worker_iter(&log, 2, 1, [1, 0, 0, 0], 2);')
@@ -1018,11 +1026,11 @@ use crate::{ChunkSize, NumThreads, Par, Params};
             if (chain, meth) in LAZY_INTRACTABLE:
                 out.pop()
                 continue
-            HARNESSES[name] = dict(kernel='api', family='lazy', props=['C12', 'C16'], tier=('thorough' if (chain, meth) == ('flat', 'filter_map') else 'quick'), bounded=eager,
+            HARNESSES[name] = dict(kernel='api', family='lazy', props=['C12', 'C16'], tier='quick', bounded=eager,
                                    path='core::verif_kani::h_lazy::%s' % name, shape=dict(type=typ, method=meth, eager_site=eager),
                                    covers_expected=1 if not eager else None, covers_min=0 if eager else None,
                                    bound=('loop-free: fully symbolic Params, any source contents' if not eager else
-                                          'eager site (materialises with collect_vec): 1 source element, 1 worker, symbolic Params'))
+                                          ('eager site (materialises with collect_vec): empty source, 1 worker, symbolic Params' if (chain, meth) in LAZY_EMPTY_SOURCE else 'eager site (materialises with collect_vec): 1 source element, 1 worker, symbolic Params')))
         for meth in ('num_threads', 'chunk_size'):
             name = 'k_lazy_%s_%s' % (chain, meth)
             b = []
